@@ -84,6 +84,20 @@ theorem autoPatch_resource {doc : Str} {root : Tree} {r : Reference} (h : autoPa
     · cases h
     · cases h; simp [customOf]
 
+theorem endsWith_custom_yaml (a : Str) : Str.endsWith (a ++ kDotCustom) kDotYaml = false := by
+  have h : (a ++ kDotCustom).length - kDotYaml.length = a.length + 2 := by
+    simp [kDotCustom, kDotYaml]
+  simp only [Str.endsWith, h]
+  have : List.drop (a.length + 2) (a ++ kDotCustom) = List.drop 2 kDotCustom := by
+    rw [List.drop_append]
+    simp
+  rw [this]
+  simp [kDotCustom, kDotYaml]
+
+/-- a `.custom` resource id is never shortened by `ToResourceId` -/
+theorem toResourceId_custom (a : Str) : toResourceId (a ++ kDotCustom) = a ++ kDotCustom := by
+  simp [toResourceId, endsWith_custom_yaml]
+
 theorem compileNode_plain_root (docs : Docs) (rec : Rec) (name : Str) (kvs : Entries) (hnd : noDirM kvs = true)
     (hc : Str.endsWith name kDotCustom = true ∨ docs (customOf name) = none) :
     compileNode docs rec [] ⟨name, []⟩ false (.map kvs) = { lit := .map kvs, slot := .map kvs, fl := {} } := by
@@ -98,10 +112,10 @@ theorem compileNode_plain_root (docs : Docs) (rec : Rec) (name : Str) (kvs : Ent
   | none => simp
   | some r =>
     have hr := autoPatch_resource hap
-    have hcd : docs r.resource = none := by
+    have hcd : docs (toResourceId r.resource) = none := by
       rcases hc with hc | hc
       · simp [autoPatchRef, hc] at hap
-      · rw [hr.1]; exact hc
+      · rw [hr.1]; unfold customOf; rw [toResourceId_custom]; exact hc
     simp [applyPatchRef, resolveRef, hcd, hr.2, Fl.seq, Fl.swallow]
 
 theorem compile_plain_core (docs : Docs) (fuel : Nat) (name : Str) (kvs : Entries)
